@@ -926,7 +926,7 @@ func TestVerif_C15_engine(t *testing.T) {
 		}
 		return
 	}
-	verifkit.RapidSetup(1200, 60000)
+	verifkit.RapidSetup(1600, 100000)
 	rapid.Check(t, func(rt *rapid.T) {
 		c := c15GenEng().Draw(rt, "case")
 		c15EngExclude(&c, col)
